@@ -156,7 +156,7 @@ func planMix(d *domain, mixes []Mix) []core.Unit {
 			us = append(us, gen.RangeUnits("utf8tpl", uint64(len(utf8Chars())), 96, "")...)
 		case "nulpad":
 			us = append(us, gen.RangeUnits("nulpad", 12*32*4, 384, "")...)
-		case "attrvals", "qualified", "gluelit", "nsattrs", "encatk", "dialect", "elements", "prose", "doubled":
+		case "attrvals", "qualified", "gluelit", "nsattrs", "encatk", "dialect", "elements", "prose", "doubled", "toktails":
 			if f := d.extraCases[m.Gen]; f != nil {
 				us = append(us, gen.RangeUnits(m.Gen, uint64(len(f())), 10000, "")...)
 			}
@@ -373,7 +373,7 @@ func genMix(d *domain, w *core.Worker, u core.Unit, emit func(core.Case)) bool {
 				emit(core.Case{In: z[:k/2] + w + z[k/2:]})
 			}
 		}
-	case "attrvals", "qualified", "gluelit", "nsattrs", "encatk", "dialect", "elements", "prose", "doubled":
+	case "attrvals", "qualified", "gluelit", "nsattrs", "encatk", "dialect", "elements", "prose", "doubled", "toktails":
 		cs := d.extraCases[u.Gen]()
 		for i := u.Lo; i < u.Hi && i < uint64(len(cs)); i++ {
 			emit(core.Case{In: cs[i]})
